@@ -40,7 +40,7 @@ func TestExplore(t *testing.T) {
 			}
 			for i := 0; i < 4; i++ {
 				tok := fmt.Sprintf("s%d", i)
-				r.plans.Store(tok, &ReqPlan{Tok: tok, Attempts: []Attempt{{Kind: "err", Status: st}}})
+				r.addPlan(&ReqPlan{Tok: tok, Attempts: []Attempt{{Kind: "err", Status: st}}})
 				fmt.Println(tok, r.probeOnce(tok), "attempts", r.attemptsSeen(tok))
 				time.Sleep(30 * time.Millisecond)
 				fmt.Println(i, r.observe())
@@ -66,7 +66,7 @@ func TestExplore(t *testing.T) {
 		run("req threshold "+proto, Setup{Proto: proto, Hosts: []string{"ok"}, Thr: [4]uint32{2, 0, 0, 0}, GlobalMs: 3000}, func(r *rig) {
 			for i := 0; i < 4; i++ {
 				tok := fmt.Sprintf("s%d", i)
-				r.plans.Store(tok, &ReqPlan{Tok: tok, Attempts: []Attempt{{Kind: "late"}}})
+				r.addPlan(&ReqPlan{Tok: tok, Attempts: []Attempt{{Kind: "late"}}})
 				go func() { fmt.Println(tok, r.probeOnce(tok)) }()
 				time.Sleep(50 * time.Millisecond)
 				fmt.Println(i, r.observe())
@@ -77,7 +77,7 @@ func TestExplore(t *testing.T) {
 		})
 	}
 	run("F10", Setup{Proto: "Http1", Hosts: []string{"ok", "ok"}, Thr: [4]uint32{1, 0, 0, 1}, GlobalMs: 3000}, func(r *rig) {
-		r.plans.Store("s0", &ReqPlan{Tok: "s0", Attempts: []Attempt{{Kind: "late"}}})
+		r.addPlan(&ReqPlan{Tok: "s0", Attempts: []Attempt{{Kind: "late"}}})
 		go func() { fmt.Println("s0", r.probeOnce("s0")) }()
 		time.Sleep(50 * time.Millisecond)
 		fmt.Println("b", r.probeOnce("b"), r.observe())
@@ -92,7 +92,7 @@ func TestExplore(t *testing.T) {
 		fmt.Println("start", r.observe())
 		for i := 0; i < 4; i++ {
 			tok := fmt.Sprintf("s%d", i)
-			r.plans.Store(tok, &ReqPlan{Tok: tok, Attempts: []Attempt{{Kind: "stall"}}})
+			r.addPlan(&ReqPlan{Tok: tok, Attempts: []Attempt{{Kind: "stall"}}})
 			go func() { fmt.Println(tok, r.probeOnce(tok)) }()
 			time.Sleep(50 * time.Millisecond)
 			fmt.Println(i, r.observe())
